@@ -21,13 +21,13 @@ ROWS = {
  "insert2_thorough": dict(acts=S("CvKnotInsert"), props=["InsertPreserves"], breaks="BreaksT", degs="DegsT", maxnpts=6, nodesize=3),
  "elevate_quick": dict(acts=S("CvDegreeIncrease"), props=["ElevatePreserves"]),
  "elevate_thorough": dict(acts=S("CvDegreeIncrease"), props=["ElevatePreserves"], pts='"gen", "unit"', wts='"none", "gen", "gen2"', degs="DegsT", maxnpts=6),
- "split_quick": dict(acts=S("CvSplit"), props=["SplitRestricts"]),
+ "split_quick": dict(acts=S("CvSplit"), props=["SplitRestricts"], maxnpts=4),
  "split_thorough": dict(acts=S("CvSplit"), props=["SplitRestricts"], pts='"gen", "unit"', wts='"none", "gen", "gen2"', degs="DegsT", maxnpts=6),
  "remove_quick": dict(acts=S("CvKnotInsert", "CvKnotRemove"), scenario="history", prep=1, depth=2, maxnpts=4, nodesize=2, props=["RemoveExactOrRefused"], wts='"none", "gen", "const"', pts='"gen", "homlin"'),
  "remove_thorough": dict(acts=S("CvKnotInsert", "CvKnotRemove"), scenario="history", prep=1, depth=2, maxnpts=5, degs="DegsT", nodesize=2, props=["RemoveExactOrRefused"], wts='"none", "gen", "gen2"'),
  "decrease_quick": dict(acts=S("CvDegreeIncrease", "CvDegreeDecrease"), scenario="history", prep=1, depth=2, maxnpts=4, props=["ReduceExactOrRefused"], wts='"none", "gen", "const"', pts='"gen", "homlin"'),
  "decrease_thorough": dict(acts=S("CvDegreeIncrease", "CvDegreeDecrease"), scenario="history", prep=1, depth=2, maxnpts=5, degs="DegsT", props=["ReduceExactOrRefused"], wts='"none", "gen", "gen2"'),
- "join_quick": dict(acts=S("CvSplitTake", "CvJoin"), depth=2, maxnpts=4, omax=3, props=["JoinRestores"], wts='"none"'),
+ "join_quick": dict(acts=S("CvSplitTake", "CvJoin"), depth=2, maxnpts=4, omax=3, props=["JoinRestores"], wts='"none", "gen"'),
  "join_thorough": dict(acts=S("CvSplitTake", "CvJoin"), depth=2, maxnpts=5, omax=4, degs="DegsT", props=["JoinRestores"], wts='"none", "gen"'),
  "arith_quick": dict(acts=S("CvArith", "CvScalar"), maxnpts=4, omax=3, pts='"gen", "pos"'),
  "arith_thorough": dict(acts=S("CvArith", "CvScalar"), maxnpts=5, omax=4, pts='"gen", "pos"', wts='"none", "gen", "gen2"'),
